@@ -222,7 +222,7 @@ Proof. vm_compute. repeat split; reflexivity. Qed.
    clean (its delete wait timed out: under WF no run that deletes a held object can be clean), so the
    fixpoint theorems say nothing about the second run, which indeed repeats the delete. *)
 Example C03_finalizer_history :
-  let univ := [mkU KNs None None; mkUF KPlain None None true; mkU KPlain None None] in
+  let univ := [mkU KNs None None; mkUF KPlain None None true true; mkU KPlain None None] in
   let o := mkO false true PMustMatch DNone VSkipInvalid false false true false PropBackground false in
   let sc := mkSc univ None [] o
                  (mkE [] [mkW [mkS 2 SNotFound false 0%N 0%Z; mkS 1 STerminating true 5%N 2%Z] WTimeout] CNever None) in
